@@ -516,7 +516,16 @@ func (img *image) run(j *job) (*jobResult, error) {
 				} else if exportedAsTruncated(exp, t, snap) {
 					// the values are replaced by their committed digests and the export is flagged
 					// "values truncated": nothing false is exported, but the values are silently dropped
-					diag = "exported-as-truncated"
+					diag = "exported-as-truncated" // a read past the end of the value log (fixes/C09-export-eof-beyond-end.diff)
+					if img.cfg.compression != 0 {
+						diag = "exported-as-truncated-compressed" // a damaged compressed block reads short
+					} else if snap != nil && !img.cfg.embedded {
+						for _, e := range snap.entries {
+							if e.vLen > 0 && byte(e.vOff>>56) == 0 {
+								diag = "exported-as-truncated-no-vlog" // vLogID 0: "replicated without its value"
+							}
+						}
+					}
 				}
 				finding("ExportTx", "altered-content", diag, fmt.Sprintf("run=%d got=%x", rep+1, sha256.Sum256(exp)))
 			}
